@@ -53,6 +53,7 @@ PROP = {  # commit subject fragment -> (property, key)
  "else clause whose body is a single if": ("C08", "else-with-single-if"),
  "branch goals were registered on excluded lines": ("C08", "predicate-on-excluded-line"),
  "scopes defined inside an excluded branch": ("C08", "scope-defined-in-excluded-branch"),
+ "ran __iter__ of collection subclasses": ("C01", "tracer-runs-user-iter-and-getattr-dict"),
  "KeyError for a loop in dead code": ("C06", "dead-code-cycle"),
  "beyond chromosome_length": ("C15", "insertion-exceeds-chromosome-length"),
  "statements binding a lambda": ("C24", "seed-parser-drops-lambda-statements"),
